@@ -105,6 +105,25 @@ impl SExp {
         }
     }
 
+    /// Largest magnitude among the values of all sub-expressions at a point: the scale
+    /// against which the rounding error of one f64 evaluation (the harness's and the
+    /// analyzer's alike) has to be measured when terms cancel.
+    pub fn magnitude(&self, x: &[f64]) -> f64 {
+        let own = self.eval(x).abs();
+        let own = if own.is_finite() { own } else { 0.0 };
+        let kids: f64 = match self {
+            SExp::Num(_) | SExp::Var(_) => 0.0,
+            SExp::Add(l, r) | SExp::Sub(l, r) => l.magnitude(x).max(r.magnitude(x)),
+            SExp::MulL(_, e) | SExp::MulR(e, _) | SExp::Div(e, _) | SExp::Neg(e) | SExp::Abs(e) | SExp::Not(e) => {
+                e.magnitude(x)
+            }
+            SExp::Min(es) | SExp::Max(es) | SExp::And(es) | SExp::Or(es) => {
+                es.iter().map(|e| e.magnitude(x)).fold(0.0, f64::max)
+            }
+        };
+        own.max(kids)
+    }
+
     /// Float value at a point (the harness's own interpreter).
     pub fn eval(&self, x: &[f64]) -> f64 {
         match self {
@@ -1129,7 +1148,8 @@ pub fn run_bounds_case(case: &BoundsCase) -> BoundsRun {
                     continue;
                 }
                 // published integer bounds are rounded with a 1e-9 slack: allow for it
-                let tol = if pi < n_internal { 1e-9 } else { 1e-7 } * val.abs().max(1.0);
+                let tol = if pi < n_internal { 1e-9 } else { 1e-7 } * val.abs().max(1.0)
+                    + 1e-13 * e.magnitude(p);
                 if val < bl - tol || val > bu + tol {
                     v(
                         "expression-range",
@@ -1626,7 +1646,7 @@ pub fn gen_src_model(rng: &mut Rng) -> (String, SrcModel) {
 }
 
 fn gen_src_model_once(rng: &mut Rng) -> (String, SrcModel) {
-    let shape = rng.weighted(&[26, 12, 22, 8, 9, 9, 8, 3, 5]);
+    let shape = rng.weighted(&[26, 12, 22, 8, 9, 9, 8, 3, 5, 4]);
     let inexact = rng.chance(1, 4);
     let n = rng.usize(2, 4);
     let names: Vec<String> = (0..n).map(|i| format!("v{i}")).collect();
@@ -1757,6 +1777,45 @@ fn gen_src_model_once(rng: &mut Rng) -> (String, SrcModel) {
                 push(&mut cons, SExp::Var(2), Cmp::Le, SExp::Var(0));
             }
             "slow-convergence"
+        }
+        9 => {
+            // large magnitudes with a row that is tight (or nearly so) at the variables' own
+            // bounds: c1*x + c2*y >= c1*X + c2*Y - slack with x in [0,X], y in [0,Y], X and Y
+            // of the order 1e6..1e9. One ulp of such numbers exceeds the analyzer's absolute
+            // tolerance, so a division can round the wrong way and a feasible model can look
+            // contradictory half-way through a row.
+            let cs = [
+                Dec { n: 1, d: 2 },
+                Dec::int(75),
+                Dec::int(3),
+                Dec { n: 1, d: 4 },
+                Dec::int(7),
+                Dec { n: 3, d: 10 },
+            ];
+            let c1 = *rng.pick(&cs);
+            let c2 = *rng.pick(&cs);
+            let xs = [2_000_000i64, 10_000_000, 250_000_000, 500_000_000];
+            let (bx, by) = (*rng.pick(&xs), *rng.pick(&xs));
+            vars[0].dom = Dom::Real { lo: Some(0.0), hi: Some(bx as f64) };
+            vars[1].dom = Dom::Real { lo: Some(0.0), hi: Some(by as f64) };
+            let slack = *rng.pick(&[0i64, 0, 1000, 1_000_000]);
+            // rhs = c1*X + c2*Y - slack, exactly
+            let rhs_n = c1.n * bx * c2.d + c2.n * by * c1.d - slack * c1.d * c2.d;
+            let rhs = Dec { n: rhs_n, d: c1.d * c2.d };
+            let lhs = SExp::Add(
+                Box::new(SExp::MulL(c1, Box::new(SExp::Var(0)))),
+                Box::new(SExp::MulL(c2, Box::new(SExp::Var(1)))),
+            );
+            if rng.chance(1, 2) {
+                push(&mut cons, lhs, Cmp::Ge, SExp::Num(rhs));
+            } else {
+                // the mirrored form: -(c1 x + c2 y) <= -rhs
+                push(&mut cons, SExp::Neg(Box::new(lhs)), Cmp::Le, SExp::Num(Dec { n: -rhs.n, d: rhs.d }));
+            }
+            if n > 2 && rng.chance(1, 2) {
+                push(&mut cons, SExp::Var(2), Cmp::Le, SExp::Num(Dec::int(rng.range(1, 9))));
+            }
+            "large-magnitude-tight-row"
         }
         8 => {
             // one variable occurring several times in a row (both sides, or repeatedly on one
